@@ -301,6 +301,6 @@ FLOORS = {"nontrivial": ("", 0.1), "polymorphic -> ValueError": ("", 0.01),
 
 def plan(tier, seed):
     q = tier == "quick"
-    tasks = [("generated", {"examples": 150 if q else 1500}) for _ in range(14)]
-    tasks += [("generated", {"examples": 60 if q else 300, "poly": True}) for _ in range(2)]
+    tasks = [("generated", {"examples": 150 if q else 4000}) for _ in range(14)]
+    tasks += [("generated", {"examples": 60 if q else 1000, "poly": True}) for _ in range(2)]
     return tasks
